@@ -267,6 +267,7 @@ func CanonName(pres string) string {
 
 // Canon is a canonical response.
 type Canon struct {
+	Question   string // the question section exactly as written (case preserved)
 	Rcode      int
 	AA, TC     bool
 	Answer     []string
@@ -283,6 +284,9 @@ type Canon struct {
 // CanonMsg canonicalises a response: per-section sorted multisets, OPT/ECS split out.
 func CanonMsg(m *dns.Msg) *Canon {
 	c := &Canon{Rcode: m.Rcode, AA: m.Authoritative, TC: m.Truncated}
+	for _, q := range m.Question {
+		c.Question += fmt.Sprintf("%s/%d/%d ", q.Name, q.Qtype, q.Qclass)
+	}
 	for _, rr := range m.Answer {
 		c.Answer = append(c.Answer, CanonOf(rr).String())
 	}
@@ -341,8 +345,8 @@ func (c *Canon) Full(withExtraAddrs bool) string {
 		}
 		sort.Strings(extra)
 	}
-	return fmt.Sprintf("rcode=%d aa=%v tc=%v\nAN %s\nNS %s\nAR %s\nOPT %v %s\nECS %v %s scope=%d",
-		c.Rcode, c.AA, c.TC, strings.Join(c.Answer, " | "), strings.Join(c.Ns, " | "), strings.Join(extra, " | "), c.HasOPT, c.OPT, c.HasECS, c.ECS, c.ECSScope)
+	return fmt.Sprintf("Q %s\nrcode=%d aa=%v tc=%v\nAN %s\nNS %s\nAR %s\nOPT %v %s\nECS %v %s scope=%d",
+		c.Question, c.Rcode, c.AA, c.TC, strings.Join(c.Answer, " | "), strings.Join(c.Ns, " | "), strings.Join(extra, " | "), c.HasOPT, c.OPT, c.HasECS, c.ECS, c.ECSScope)
 }
 
 // MakeQuery builds a query message.
